@@ -446,6 +446,7 @@ func runC14(ctx *core.Ctx) {
 		c := genC14(core.CaseRef{Stream: "c14", Index: i}, r)
 		execC14(ctx, c)
 	})
+	c14NestedStream(ctx)
 }
 
 func c14Copy(r Row) Row {
